@@ -161,6 +161,16 @@ def rw_for_iter(text, nth):
     return text[:m.start()] + head + text[m.end():j] + ' None => break } }' + text[j:], 1
 
 
+def rw_underscore_closures(text):
+    """R3: closure parameter `|_|` -> `|_cN|` (Verus accepts only variables as closure parameters)"""
+    n = [0]
+
+    def f(m):
+        n[0] += 1
+        return '|_c%d|' % n[0]
+    return re.sub(r'\|\s*_\s*\|', f, text), n[0]
+
+
 def rw_underscore_params(sig):
     """R3: parameter pattern `_: T` -> `_pN: T`"""
     n = [0]
@@ -173,7 +183,7 @@ def rw_underscore_params(sig):
 
 REWRITES_DOC = {
     'R2': '`*X.get_unchecked(i)` -> `X[i]`: same value when i is in bounds; the bounds obligation IS the safety obligation',
-    'R3': 'parameter pattern `_: T` -> `_pN: T` (Verus rejects `_` patterns)',
+    'R3': 'parameter pattern `_: T` -> `_pN: T`, closure parameter `|_|` -> `|_cN|` (Verus rejects `_` patterns)',
     'R7': 'generic parameter instantiated at the one type the unit models: `T: Index<usize, Output = u64>` of bits::read_int/write_int at Vec<u64>; `P: AsRef<Path>` at the model path type',
     'R10': 'alpha-renaming of the method-level generic parameter of the Serialize methods (T -> W, the name SelectSupport already uses): this Verus matches trait and impl method generics by name',
     'R5': '`for p in E { B }` over a crate-defined iterator -> `let mut verif_it = E; loop { match verif_it.next() { Some(p) => { B } None => break } }`: the reference desugaring of `for` (IntoIterator::into_iter is the identity on iterators); for `E = X.by_ref()` the temporary is elided (`Iterator::by_ref` = `self`, `<&mut I as Iterator>::next` = `(**self).next()`, std source)',
@@ -348,6 +358,9 @@ def weave_fn(src, container, name, nth, opts, subs, mode, sig_only=False):
     text, k = rw_get_unchecked(raw)
     if k:
         rewrites['R2'] = k
+    text, k = rw_underscore_closures(text)
+    if k:
+        rewrites['R3'] = rewrites.get('R3', 0) + k
     for kind, arg, lines in subs:
         if kind == 'desugar_for':
             text, k = rw_for_iter(text, int(arg.strip() or '1'))
